@@ -10,6 +10,17 @@ def macro(P, unit, name):
     return m[name]
 
 
+def const(P, unit, name):
+    """object-like macro of the unit, or an enumerator of that name"""
+    m = P.facts.get("macros", {}).get(unit, {})
+    if name in m and isinstance(m[name], int):
+        return m[name]
+    e = P.facts.get("enums", {})
+    if name in e:
+        return e[name]
+    raise AnalysisBroken("anchor constant %s not visible (unit %s)" % (name, unit))
+
+
 def enum(P, name):
     e = P.facts.get("enums", {})
     if name not in e:
